@@ -25,7 +25,7 @@ DOCUMENTED_CONFLICTS = [("struct", ("type", "as")), ("struct", ("type", "rename_
                         ("enum", ("type", "as")), ("enum", ("type", "rename_all")), ("enum", ("type", "rename_all_fields")), ("enum", ("type", "tag")),
                         ("enum", ("type", "content")), ("enum", ("type", "untagged")), ("enum", ("as", "rename_all")), ("enum", ("as", "rename_all_fields")),
                         ("enum", ("as", "tag")), ("enum", ("as", "content")), ("enum", ("as", "untagged")), ("enum", ("untagged", "tag")),
-                        ("enum", ("untagged", "content", "tag")), ("enum", ("content",)),
+                        ("enum", ("untagged", "content", "tag")), ("enum", ("untagged", "content")), ("enum", ("content",)),
                         ("variant", ("as", "type")), ("variant", ("as", "rename_all")), ("variant", ("type", "rename_all")), ("variant", ("type", "inline")),
                         ("field", ("type", "as")), ("field", ("type", "inline")), ("field", ("type", "flatten")), ("field", ("type", "optional")),
                         ("field", ("flatten", "as")), ("field", ("flatten", "rename")), ("field", ("flatten", "inline")), ("field", ("flatten", "optional"))]
@@ -126,6 +126,31 @@ def gen_items(ctx):
             for vshape in ("named", "newtype", "unit"):
                 v = {"shape": sh(vshape), "ts": [join([TS_VARIANT[k] for k in vk])], "serde": [], "fields": shapes[vshape](), "_keys": list(vk)}
                 items.append(({"is_enum": True, "ts": [], "serde": [], "shape": "named", "fields": [], "variants": [v], "_keys": []}, "variant"))
+    # every documented-incompatible combination, always (not sampled), at its position, in front of every variant / field shape
+    def all_variants():
+        return [{"shape": sh(vs), "ts": [], "serde": [], "fields": shapes[vs](), "_keys": []} for vs in ("named", "tuple", "newtype", "unit", "empty_named")]
+    for pos, combo in DOCUMENTED_CONFLICTS:
+        if pos == "struct":
+            for shape in ("named", "tuple", "unit"):
+                items.append(({"is_enum": False, "ts": [join([TS_STRUCT[k] for k in combo])], "serde": [], "shape": sh(shape), "fields": shapes[shape](), "variants": [],
+                               "_keys": list(combo), "_shape": shape}, "conflict:struct"))
+        elif pos == "enum":
+            items.append(({"is_enum": True, "ts": [join([TS_ENUM[k] for k in combo])], "serde": [], "shape": "named", "fields": [], "variants": all_variants(), "_keys": list(combo)}, "conflict:enum"))
+            items.append(({"is_enum": True, "ts": [join([TS_ENUM[k] for k in combo])], "serde": [], "shape": "named", "fields": [], "variants": [], "_keys": list(combo)}, "conflict:enum"))
+            items.append(({"is_enum": True, "ts": [join([TS_ENUM[k] for k in combo])], "serde": [], "shape": "named", "fields": [], "_keys": list(combo),
+                           "variants": [{"shape": "named", "ts": [[I("skip")]], "serde": [], "fields": shapes["named"](), "_keys": ["skip"]}]}, "conflict:enum"))
+        elif pos == "variant":
+            for vshape in ("named", "newtype", "unit"):
+                v = {"shape": sh(vshape), "ts": [join([TS_VARIANT[k] for k in combo])], "serde": [], "fields": shapes[vshape](), "_keys": list(combo)}
+                for cont in ([], ["tag"], ["tag", "content"], ["untagged"]):
+                    items.append(({"is_enum": True, "ts": [join([TS_ENUM[k] for k in cont])] if cont else [], "serde": [], "shape": "named", "fields": [], "variants": [all_variants()[3], v], "_keys": list(cont)}, "conflict:variant"))
+        elif pos == "field":
+            for named in (True, False):
+                f = mk_field(named, combo)
+                items.append(({"is_enum": False, "ts": [], "serde": [], "shape": "named" if named else "tuple", "fields": [mk_field(named, name="z"), f], "variants": [], "_keys": []}, "conflict:field"))
+                if named:
+                    items.append(({"is_enum": True, "ts": [], "serde": [], "shape": "named", "fields": [], "_keys": [],
+                                   "variants": [{"shape": "named", "ts": [], "serde": [], "fields": [f], "_keys": []}]}, "conflict:field"))
     # invalid values / unknown keys at every position
     for iname, toks in INVALID.items():
         items.append(({"is_enum": False, "ts": [toks], "serde": [], "shape": "named", "fields": [mk_field(True)], "variants": [], "_keys": []}, "invalid:struct:" + iname))
